@@ -214,6 +214,15 @@ Theorem c19_intercept_exact : forall enabled user db rules stmts reply,
 Proof. exact intercept_exact. Qed.
 Print Assumptions c19_intercept_exact.
 
+(** Intercept is consulted before table_access (execute_plugins): a statement that matches
+    an intercept rule gets its rows even when it names a listed table - the shipped example
+    intercepts queries on the very catalogs it lists. *)
+Theorem c19_intercept_before_table_access : forall pc user db ast b,
+  ic_present pc = true -> intercept_run (ic_enabled pc) user db (ic_rules pc) (map st_norm ast) = IReply b ->
+  execute_plugins (Some pc) user db ast = PIntercept b.
+Proof. exact intercept_first. Qed.
+Print Assumptions c19_intercept_before_table_access.
+
 Theorem c19_intercept_only_matching : forall enabled user db rules stmts,
   matched_rules rules stmts = [] -> intercept_run enabled user db rules stmts = IAllow.
 Proof. exact intercept_none. Qed.
@@ -313,3 +322,39 @@ Example c19_short_schema_reply :
   | _ => False
   end.
 Proof. vm_compute. reflexivity. Qed.
+
+(* pg_database, and "select datname from pg_database" as sqlparser renders it *)
+Definition s_pg_database : bytes := [112;103;95;100;97;116;97;98;97;115;101]%N.
+Definition q_datname : bytes :=
+  [83;69;76;69;67;84;32;100;97;116;110;97;109;101;32;70;82;79;77;32;112;103;95;100;97;116;97;98;97;115;101]%N.
+Example c19_intercepted_listed_table :
+  let pc := mkPcfg true true [mkRule q_datname [[ [100]%N; s_text ]] [[ [120]%N ]]] true true [s_pg_database] in
+  let st := mkStmt q_datname [] [[mkIdent s_pg_database false]] in
+  (match execute_plugins (Some pc) [117]%N [100]%N [st] with PIntercept _ => true | _ => false end) = true /\
+  execute_plugins (Some (mkPcfg false false [] true true [s_pg_database])) [117]%N [100]%N [st] = PDeny (deny_message s_pg_database).
+Proof. vm_compute. split; reflexivity. Qed.
+
+(* ------------------------------------------------------------------ reload *)
+
+(** Across a RELOAD.  A session whose router holds the registered settings is judged by
+    the new file, for every statement, as long as no further reload happens; and one
+    forwarded statement (one checkout) is what brings a session up to date. *)
+Theorem c19_reload_fresh_follows_new : forall ops,
+  forallb (fun o => match o with RReload => false | _ => true end) ops = true -> rrun true ops = map rnew ops.
+Proof. exact no_reload_follows_new. Qed.
+Print Assumptions c19_reload_fresh_follows_new.
+
+Theorem c19_reload_checkout_refreshes : forall f o f', rstep f o = (f', OFwd) -> f' = true.
+Proof. exact forwarded_refreshes. Qed.
+Print Assumptions c19_reload_checkout_refreshes.
+
+(** Between the RELOAD and the session's next checkout the OLD file judges (a defect, seen on
+    the wire): an extended batch on a table the new file lists is forwarded; statements the
+    old file denied stay denied although the new file allows them, for as long as the
+    session sends nothing that passes. *)
+Theorem c19_reload_stale_refuted :
+  rrun true [RReload; RBatch Allow (Deny 1); RBatch Allow (Deny 1)] = [ONone; OFwd; ODeny 1] /\
+  rrun true [RReload; RQ (Deny 1) Allow; RBatch (Deny 1) Allow; RQ (Deny 1) Allow] = [ONone; ODeny 1; ODeny 1; ODeny 1] /\
+  rrun true [RReload; RQ Allow (Deny 1)] = [ONone; ODeny 1].
+Proof. repeat split. Qed.
+Print Assumptions c19_reload_stale_refuted.
